@@ -27,7 +27,7 @@ use stun::message::{Message, MessageType, CLASS_ERROR_RESPONSE, CLASS_REQUEST, C
 
 const PEER_UFRAG: &str = "peerUfrag";
 const PEER_PWD: &str = "peerPasswordpeerPassword";
-const POSITIVE_DEADLINE: Duration = Duration::from_secs(10); // only for effects the model expects
+const POSITIVE_DEADLINE: Duration = Duration::from_secs(5); // only for effects the model expects
 const PKT_DEADLINE: Duration = Duration::from_secs(30); // machinery: the packet must be handled at all
 
 #[derive(Clone, Debug)]
@@ -621,27 +621,59 @@ async fn build_world(cfg: &Value, pre: &[Value], from: &Value, rng: &Rng) -> Res
     Ok(w)
 }
 
-fn run_group(edges: &[Value], out: &mut Vec<Value>, rng: &mut Rng, stats: &mut BTreeMap<String, u64>) {
+/// What already went wrong with steps the property leaves free (legitimate-peer behaviour): the
+/// same prefix / the same action is not waited for again and again (keeps a run on a tree whose
+/// legitimate behaviour is broken finite; never hides a violation - those are inert edges).
+#[derive(Default)]
+struct Failed {
+    prefixes: std::collections::HashSet<String>,
+    acts: HashMap<String, u32>,
+}
+
+fn prefix_key(cfg: &Value, pre: &[Value], upto: usize) -> String {
+    let acts: Vec<String> = pre.iter().take(upto + 1).map(|h| h["a"].to_string()).collect();
+    format!("{}|{}", cfg["role"], acts.join(";"))
+}
+
+fn run_group(edges: &[Value], out: &mut Vec<Value>, rng: &mut Rng, stats: &mut BTreeMap<String, u64>, failed: &mut Failed) {
     let cfg = edges[0]["cfg"].clone();
     let pre: Vec<Value> = edges[0]["pre"].as_array().cloned().unwrap_or_default();
     let from = edges[0]["from"].clone();
     let mut world: Option<Ctx> = None;
-    for e in edges {
+    if (0..pre.len()).any(|i| failed.prefixes.contains(&prefix_key(&cfg, &pre, i))) {
+        *stats.entry("skipped_edges".into()).or_default() += edges.len() as u64;
+        *stats.entry("skipped_groups_known_bad_prefix".into()).or_default() += 1;
+        return;
+    }
+    for (ei, e) in edges.iter().enumerate() {
         if world.is_none() {
             rng.next();
             match Ctx::build(&cfg, &pre, &from, rng) {
                 Ok(w) => world = Some(w),
                 Err(why) => {
-                    *stats.entry("skipped_edges".into()).or_default() += 1;
-                    out.push(json!({"type": "drift", "why": why, "cfg": cfg, "pre": pre, "act": e["act"], "rule": "EXT"}));
-                    continue;
+                    // the history does not lead the real agent where the model says: nothing in this
+                    // group can be judged
+                    let step = why["step"].as_u64().map(|s| s as usize).unwrap_or(pre.len().saturating_sub(1));
+                    if !pre.is_empty() {
+                        failed.prefixes.insert(prefix_key(&cfg, &pre, step));
+                    }
+                    *stats.entry("skipped_edges".into()).or_default() += (edges.len() - ei) as u64;
+                    out.push(json!({"type": "drift", "why": why, "cfg": cfg, "pre": pre, "act": e["act"], "rule": "EXT",
+                        "skipped": edges.len() - ei}));
+                    return;
                 }
             }
         }
-        let c = world.as_mut().unwrap();
-        let before = c.project();
         let inert = e["inert"].as_bool().unwrap();
         let rule = e["rule"].as_str().unwrap().to_string();
+        let act_key = format!("{}|{}", cfg["role"], e["act"]);
+        if !inert && failed.acts.get(&act_key).copied().unwrap_or(0) >= 3 {
+            *stats.entry("skipped_edges".into()).or_default() += 1;
+            *stats.entry("skipped_ext_known_bad_act".into()).or_default() += 1;
+            continue;
+        }
+        let c = world.as_mut().unwrap();
+        let before = c.project();
         let pick = if rng.below(2) == 0 { Builder::Repo } else { Builder::StunCrate };
         let res = c.rt.block_on(apply(&mut c.w, &e["act"], inert, pick));
         let applied = match res {
@@ -683,6 +715,7 @@ fn run_group(edges: &[Value], out: &mut Vec<Value>, rng: &mut Rng, stats: &mut B
             let want = e["to"].clone();
             let after = c.rt.block_on(c.w.wait_projection(&want));
             if !proj_eq(&after, &want) {
+                *failed.acts.entry(act_key).or_default() += 1;
                 out.push(json!({"type": "drift", "why": {"why": "post-state", "expected": want, "observed": after},
                     "cfg": cfg, "pre": pre, "act": e["act"], "rule": "EXT"}));
             }
@@ -719,7 +752,11 @@ fn main() {
     let mut rng = Rng::from_env();
     let t0 = Instant::now();
     let mut ngroups = 0u64;
-    for (gi, (_k, es)) in groups.iter().enumerate() {
+    let mut failed = Failed::default();
+    // shortest histories first, so that a broken prefix is discovered once, on its shortest occurrence
+    let mut order: Vec<(&String, &Vec<Value>)> = groups.iter().collect();
+    order.sort_by_key(|(k, es)| (es[0]["pre"].as_array().map(|a| a.len()).unwrap_or(0), (*k).clone()));
+    for (gi, (_k, es)) in order.into_iter().enumerate() {
         if gi as u64 % sn != si {
             continue;
         }
@@ -730,7 +767,7 @@ fn main() {
         let mut grng = Rng(rng.next() ^ gi as u64);
         let g0 = Instant::now();
         let n0 = out.len();
-        run_group(&es, &mut out, &mut grng, &mut stats);
+        run_group(&es, &mut out, &mut grng, &mut stats, &mut failed);
         if std::env::var("VERIF_DEBUG").is_ok() {
             eprintln!(
                 "group {gi} edges={} t={:.2}s new_records={} pre={}",
